@@ -11,7 +11,7 @@ from .. import timegen as tg
 class C02(Prop):
     pid = "C02"
     lean_module = "RxModel.Props.C02"
-    extra_modules = ("RxModel.Props.C02T", "RxModel.Props.C02C")
+    extra_modules = ("RxModel.Props.C02T", "RxModel.Props.C02C", "RxModel.Props.C02M")
     design_ref = "DESIGN.md §6 C02"
     rule = ("the C01 case population with `unsub` injected at every position of the event script, followed by "
             "the rest of the script and extra events on every hot input; plus linear chains with every scheduler-using "
